@@ -226,6 +226,71 @@ func (g *textGen) flag(s string) {
 	}
 }
 
+func tokenHas(t string) (vt, vn bool) {
+	p := strings.Split(t, "/")
+	return len(p) >= 2 && p[1] != "", len(p) == 3 && p[2] != ""
+}
+
+// mixedFlags records, from the tokens actually written for a mixed group, the states
+// that matter to a reader that builds per-vertex arrays: which NEW vertices (first
+// occurrence of a token) lack an attribute that another vertex of the group carries.
+func (g *textGen) mixedFlags(faces [][3]string) {
+	seen := map[string]bool{}
+	var order []string // new tokens in order of first occurrence
+	anyT, anyN := false, false
+	for _, f := range faces {
+		for _, t := range f {
+			if !seen[t] {
+				seen[t] = true
+				order = append(order, t)
+			}
+			vt, vn := tokenHas(t)
+			anyT, anyN = anyT || vt, anyN || vn
+		}
+	}
+	if len(order) == 0 {
+		return
+	}
+	ft, fn := tokenHas(order[0])
+	lt, ln := tokenHas(order[len(order)-1])
+	if anyN && !ln {
+		g.flag("mixed:last-new-vertex-lacks-vn")
+	}
+	if anyT && !lt {
+		g.flag("mixed:last-new-vertex-lacks-vt")
+	}
+	if anyN && !fn {
+		g.flag("mixed:first-vertex-lacks-vn")
+	}
+	if anyT && !ft {
+		g.flag("mixed:first-vertex-lacks-vt")
+	}
+	// the last face: only old tokens, or new ones?
+	last := faces[len(faces)-1]
+	before := map[string]bool{}
+	for _, f := range faces[:len(faces)-1] {
+		for _, t := range f {
+			before[t] = true
+		}
+	}
+	newInLast := 0
+	for _, t := range last {
+		if !before[t] {
+			newInLast++
+		}
+	}
+	lvt, lvn := tokenHas(last[0])
+	poorLast := (anyN && !lvn) || (anyT && !lvt)
+	switch {
+	case poorLast && newInLast == 0:
+		g.flag("mixed:trailing-poor-face-reuses-tokens")
+	case poorLast:
+		g.flag("mixed:trailing-poor-face-new-tokens")
+	default:
+		g.flag("mixed:trailing-rich-face")
+	}
+}
+
 func formCode(f string) string {
 	switch f {
 	case "v":
@@ -406,8 +471,50 @@ func genText(r *rand.Rand, tier string) (string, *textDesc) {
 		}
 		form := forms[r.Intn(len(forms))]
 		mixed := enableMixedFormsInGroup && len(forms) > 1 && r.Intn(6) == 0
-		if mixed {
+		// A mixed group: which faces carry MORE attributes (rich form) and which fewer
+		// (poor form) — rich first, last, in the middle, around a poor middle, or at random.
+		var plan []string // form of face f when the arrangement is planned
+		marr := ""
+		if mixed && nf > 0 {
 			g.flag("mixed-forms-in-group")
+			if nf < 3 {
+				nf = 3 + r.Intn(3)
+			}
+			rich := forms[1+r.Intn(len(forms)-1)]
+			var poorer []string
+			for _, f := range forms {
+				if f != rich && (f == "v" || rich == "v/vt/vn") {
+					poorer = append(poorer, f)
+				}
+			}
+			poor := poorer[r.Intn(len(poorer))]
+			marr = []string{"random", "rich-first", "rich-last", "rich-middle", "poor-middle"}[r.Intn(5)]
+			a := 1 + r.Intn(nf-2)       // 1 … nf-2
+			b := a + 1 + r.Intn(nf-a-1) // a+1 … nf-1
+			plan = make([]string, nf)
+			for f := range plan {
+				var isRich bool
+				switch marr {
+				case "rich-first":
+					isRich = f < a
+				case "rich-last":
+					isRich = f >= a
+				case "rich-middle":
+					isRich = f >= a && f < b
+				case "poor-middle":
+					isRich = f < a || f >= b
+				default:
+					isRich = r.Intn(2) == 0
+				}
+				plan[f] = poor
+				if isRich {
+					plan[f] = rich
+				}
+				if marr == "random" {
+					plan[f] = forms[r.Intn(len(forms))]
+				}
+			}
+			g.flag("mixed:" + marr)
 		}
 		// usemtl arrangement inside the segment
 		arr := r.Intn(6)
@@ -438,10 +545,26 @@ func genText(r *rand.Rand, tier string) (string, *textDesc) {
 			if len(faceTokens) > 0 && r.Intn(8) == 0 {
 				tk = faceTokens[r.Intn(len(faceTokens))] // the same face again
 			} else {
-				if mixed {
-					form = forms[r.Intn(len(forms))]
+				if plan != nil {
+					form = plan[f]
 				}
 				tk = [3]string{g.cornerToken(form), g.cornerToken(form), g.cornerToken(form)}
+				if plan != nil && r.Intn(3) == 0 {
+					// reuse tokens of the same form that the group already used (no new vertex)
+					var same []string
+					for _, ft := range faceTokens {
+						for _, t := range ft {
+							if strings.Count(t, "/") == strings.Count(tk[0], "/") && strings.Contains(t, "//") == strings.Contains(tk[0], "//") {
+								same = append(same, t)
+							}
+						}
+					}
+					for k := range tk {
+						if len(same) > 0 && r.Intn(4) != 0 {
+							tk[k] = same[r.Intn(len(same))]
+						}
+					}
+				}
 				if r.Intn(10) == 0 {
 					tk[2] = tk[0] // degenerate face
 				}
@@ -454,6 +577,9 @@ func genText(r *rand.Rand, tier string) (string, *textDesc) {
 			} else {
 				matUsedInGroup[fmt.Sprintf("%s@%d", curMat, s)]++
 			}
+		}
+		if plan != nil {
+			g.mixedFlags(faceTokens)
 		}
 		if nf > 0 && arr >= 4 && r.Intn(2) == 0 {
 			usemtlHere("usemtl-after-last-face")
